@@ -124,7 +124,7 @@ def run(ctx):
                 "multi-cause scenarios, and a TCP cut after every %d-th byte (both directions) of scripted polling / "
                 "websocket / upgrade sessions; one evaluation = one server socket of one scenario; non-trivial = the "
                 "socket had connected and its end was reported (distinct (transport, phase, causes, reason))" % stride)
-    ctx.trusted = ["Coq 8.16.1 kernel + vm_compute (the control system of Sio/Lifecycle.v, 16106 + 23894 (two sockets) reachable states, are explored "
+    ctx.trusted = ["Coq 8.16.1 kernel + vm_compute (the control system of Sio/Lifecycle.v, 16106 + 23894 + 29331 (two sockets: two namespaces, one namespace) reachable states, are explored "
                    "inside the kernel: Sio/LifecycleInv.reach_ok_code)",
                    "hand-written model Sio/Lifecycle.v tied by kernel-evaluated agreement of every recorded outcome with "
                    "the model's outcome set for the fired causes",
